@@ -41,7 +41,7 @@ let parse_X (hd : string) =
   match words hd with
   | "X" :: mode :: rest ->
       let es = parse_pairs (match rest with [] -> "" | f :: _ -> f) in
-      (mode = "n", Stdlib.List.map (fun (p, g) -> (n_of_hex p, n_of_hex g)) es)
+      (mode.[0] = 'n', Stdlib.List.map (fun (p, g) -> (n_of_hex p, n_of_hex g)) es)
   | _ -> failwith "bad X case"
 
 let parse_probe (s : string) : bool * BinNums.coq_N =
